@@ -12,6 +12,8 @@ CHECKS = {
              note=TB + 'A Discover with an empty station list is left open by the property (the code treats it as acknowledging).', tech='Rocq proof (induction over the station list, slicing lemmas) + regenerated layout + differential run vs C and vs extracted spec', ref='6 (C11)'),
  'C16': dict(text='Refinement to a dictionary keyed by (mapper, generation): invariant (16 slots, no duplicate live key, count = number of live sessions, all_complete = function of the live sessions) proved for every table reachable by any operation sequence (induction over fold_left), plus per-operation characterisations on the abstract view for add (refresh / insert / refuse-when-full leaves the table untouched), find, remove, clear, completion update and the 60 s expiry sweep.',
              note=TB + 'The executable dictionary used as run-time oracle (spec/SpecExec.v) mirrors the proved per-operation statements; its own Permutation-refinement theorem is not proved.', tech='Rocq proof (invariant by induction over operations, list surgery lemmas) + differential run vs C and vs extracted dictionary', ref='6 (C16)'),
+ 'C12': dict(text='Invariant proof over EVERY schedule of ticks, clock advances and arbitrary other calls (adversarial Havoc of automata, RepeatBand state and session table; only the tick-private last-transmit timestamp is kept, as the Darwin wiring guarantees): consecutive periodic Hellos are >= HELLO_MIN_INTERVAL_MS apart; a Hello is sent only by the tick and only if, after its own inactivity handling and expiry sweep, a live incomplete session exists (uses the regenerated enumeration table); silence once no session is left. The other automata API calls are proved to be Havoc instances.',
+             note=TB + 'The Darwin daemon cannot be built here: its per-frame flow and tick wiring are sliced textually out of darwin-main.c on every run and compiled into the harness; that the daemon writes LastHelloTxMs nowhere else is not checked. 64-bit millisecond clock assumed not to wrap.', tech='Rocq proof (invariant over arbitrary schedules with adversarial environment) + differential run vs C incl. sliced Darwin flow + trace oracles', ref='6 (C12)'),
  'C13': dict(text='Theorems over the model of band_update_stats/band_choose_hello_time with the C integer widths written out: for every r < 2^32 the new count equals min(NMAX, ALPHA*r^BETA) over unbounded numbers, range [ALPHA,NMAX] is invariant under every band operation, count and interval are monotone, the interval obeys the load formula. Constants are regenerated facts proved equal to the documented ones.',
              note=TB + 'Thorough tier sweeps all 2^32 values of r through the real band_update_stats.', tech='Rocq proof (N arithmetic, lia/nia) + regenerated constants + differential run vs C', ref='6 (C13)'),
  'C14': dict(text='Theorem for every state, EVERY integer input and every elapsed time: the regenerated mapping table walked by the modelled switch_state_mapping (last row wins, time-out pre-emption, second pass) equals the specification written from the property text; finite part by vm_compute over the table, all other inputs by a lookup lemma; time-out bounds; tick-driven 30 s inactivity theorem.',
